@@ -5,6 +5,9 @@ ROOT = os.path.dirname(os.path.dirname(os.path.abspath(__file__)))
 ALL = ["C%02d" % i for i in range(1, 19)]
 
 CHECKS = {
+ "C01": dict(engine="E-mut", technique="exhaustive single-site mutation of the outstanding honest SendLastStateProof in every receiver scenario, trusted-view equality oracle",
+   text="For every world (chain shape, last-N, RNG seed, Dummy and easy-target Eaglesong PoW) and every receiver scenario with an outstanding proof request (first proof from genesis, new proof on the sampled / short / reorg path, and on Eaglesong a self-consistent chain whose non-tip headers fail PoW) every single-site mutant of the honest answer to the request the client itself generated is delivered to the real handler: boundary values over every byte window of width 4/8/32, every truncation, vector operators on headers and proof (drop/duplicate/swap/reverse/insert), substitution of each header by the fork twin or the neighbouring height, each also with the attacker-controlled commitments re-sealed. After every delivery the complete trusted view (per-peer prove states, stored tip, total difficulty and last-N headers, get_header over all world headers) must be byte-identical; the honest answer itself must be accepted (control), the unmined chain must be rejected, and every honest answer of every other scenario delivered in this state from the asked or an unknown peer must not change the view.",
+   note="Single-site mutations (pairs are not enumerated); hash collisions excluded; Eaglesong targets are easy by construction so that PoW rejection is observable.", design="DESIGN.md §3 C01"),
  "C07": dict(engine="E-grid", technique="exhaustive enumeration of peer check-point vector assignments x quorum sizes x delivery/tick schedules through the real handlers, invariants evaluated after every tick",
    text="Exhaustive grid: max_outbound 1..4 (quorum 1..2) x 1..4 proven peers (+1 unproven) x every ordered assignment of chained check-point vectors over {H,X,Y} of length <= 2 (thorough 3; the 4th peer from the short vectors) x schedules (all-then-tick, round-robin, peer-by-peer, every peer order with a tick after every chunk, restart after the first finalisation). Messages go through the real BlockFilterCheckPoints handler and REFRESH_PEERS tick. After every tick: a newly final index is backed by >= quorum proven peers agreeing on every index since the previous final one; stored check points are never rewritten and the final index never decreases (also across a restart); a proven peer contradicting the final value is banned and no agreeing peer is; >= quorum agreeing peers are never blocked by fewer than quorum shorter/different ones; unproven peers have no influence.",
    note="A banned peer is disconnected by the harness (as ckb-network does). Check point values are chained like filter hashes (a value determines its prefix). Exact ties may finalise either value.", design="DESIGN.md §3 C07"),
@@ -23,7 +26,7 @@ CHECKS = {
 }
 ENGINES = [
  {"name":"E-grid","path":"harness/src/verif/props/c07.rs, c13.rs, c14.rs, c15.rs","serves_properties":["C07","C13","C14","C15"],"kind_free_text":"exhaustive enumeration of a finite input / configuration grid of real functions or handler rounds against a reference"},
- {"name":"E-mut","path":"harness/src/verif/mutate.rs, props/c10.rs","serves_properties":["C10"],"kind_free_text":"exhaustive single-site mutation of every honest message of a history, delivered in every receiver scenario"},
+ {"name":"E-mut","path":"harness/src/verif/mutate.rs, props/sweep.rs, props/c01.rs, props/c10.rs","serves_properties":["C01","C10"],"kind_free_text":"exhaustive single-site mutation of every honest message of a history, delivered in every receiver scenario"},
 ]
 NOT_YET = "check under construction"
 
